@@ -427,11 +427,15 @@ open Uniflow Uniflow.Writer Uniflow.Teardown Uniflow.WriterProofs Uniflow.Writer
 not run yet). -/
 def dropSum (m : W) : Nat := (m.readers.map fun r => (m.drops r).length).sum
 
+/-- Answers of the linked readers that are in flight: popped from the reader's queue by
+`Reader.Receive`, `(*Writer).receive` not yet entered. -/
+def flightSum (m : W) : Nat := (m.readers.map fun r => (m.flight r).length).sum
+
 /-- The measure: pending rows (twice: completing a row moves it into the pump) + buffered
-packets + held-back drop notices + responses still owed to the consumer + 1 while the pump
-goroutine has not returned. -/
+packets + held-back drop notices + answers in flight + responses still owed to the consumer + 1
+while the pump goroutine has not returned. -/
 def mu (c : Comp) : Nat :=
-  2 * c.w.rows.length + c.p.buf.length + dropSum c.w + c.outstanding + (if c.p.exited then 0 else 1)
+  2 * c.w.rows.length + c.p.buf.length + dropSum c.w + flightSum c.w + c.outstanding + (if c.p.exited then 0 else 1)
 
 /-- The writer has been torn down: closed itself, or every reader linked to it is closed. -/
 def TornDown (c : Comp) : Prop := c.w.done = true ∨ ∀ r ∈ c.w.readers, c.w.closed r = true
@@ -458,9 +462,10 @@ theorem backed_applyC (rule : Pump.Rule) (c : Comp) (x : CStep) (hb : Backed c) 
 /-- While a torn-down writer's consumer is owed anything, a fair step is enabled: a packet is
 buffered or the channel is closed (the receive returns), or a pending row waits for a held-back
 drop notice. -/
-theorem enabled (c : Comp) (hi : CInv c) (hb : Backed c) (ht : TornDown c) (hnf : ∀ r, c.w.flight r = [])
+theorem enabled (c : Comp) (hi : CInv c) (hb : Backed c) (ht : TornDown c)
     (ho : c.outstanding > 0) :
-    c.p.buf ≠ [] ∨ c.p.exited = true ∨ (c.w.done = false ∧ ∃ r ∈ c.w.readers, (c.w.drops r).length > 0) := by
+    c.p.buf ≠ [] ∨ c.p.exited = true ∨
+      (c.w.done = false ∧ ∃ r ∈ c.w.readers, (c.w.drops r).length > 0 ∨ (c.w.flight r).length > 0) := by
   by_cases hbuf : c.p.buf = []
   · cases hex : c.p.exited with
     | true => exact Or.inr (Or.inl rfl)
@@ -507,13 +512,17 @@ theorem enabled (c : Comp) (hi : CInv c) (hb : Backed c) (ht : TornDown c) (hnf 
       · have hqq := hR.queue p.1
         simp only [WriterProofs.fifo, hmc, if_true] at hqq
         rw [← hqq] at hq
+        left
         cases hdr : c.w.drops p.1 with
         | nil => simp [hdr] at hq
         | cons _ _ => simp
-      · have hff := hR.flight p.1
-        rw [hnf p.1] at hff
+      · -- the answer the row waits for is in flight: its delivery is enabled
+        right
+        have hff := hR.flight p.1
         rw [← hff] at hf
-        cases hf
+        cases hfl : c.w.flight p.1 with
+        | nil => simp [hfl] at hf
+        | cons _ _ => simp
   · exact Or.inl hbuf
 
 /-- A receive that returns (a packet, or the closed channel) strictly decreases the measure and
@@ -608,11 +617,60 @@ theorem drop_decreases (c : Comp) (hi : CInv c) (hb : Backed c) (r : RId) (hr : 
     split
     · rw [hgr]; simp
     · rfl
+  have hfs : flightSum (receive m' Ans.dropped r g.1 g.2).1 = flightSum c.w := by
+    simp only [flightSum, hrd, hfl]; rfl
+  rw [hfs]
   show 2 * (receive m' Ans.dropped r g.1 g.2).1.rows.length + (c.p.buf.length + (receive m' Ans.dropped r g.1 g.2).2.emits.length) +
-      (c.w.readers.map fun x => (m'.drops x).length).sum + (c.accepted - c.got.length) +
+      (c.w.readers.map fun x => (m'.drops x).length).sum + flightSum c.w + (c.accepted - c.got.length) +
       (if c.p.exited = true then 0 else 1) < _
   rw [hmap]
   have hl : (receive m' Ans.dropped r g.1 g.2).2.emits.length + (receive m' Ans.dropped r g.1 g.2).1.rows.length = c.w.rows.length := hlen
+  omega
+
+/-- An answer in flight reaching `(*Writer).receive` – whether it is credited to its row or ignored
+(its reader closed or unlinked and linked again in the meantime: stale link generation; its row
+gone: no such write number) – strictly decreases the measure. -/
+theorem deliver_decreases (c : Comp) (hi : CInv c) (hb : Backed c) (r : RId) (hr : r ∈ c.w.readers)
+    (hnd : c.w.done = false) (hd : (c.w.flight r).length > 0) :
+    mu (applyC .discard c (.w (.deliver r 0))).1 < mu c ∧
+    (applyC .discard c (.w (.deliver r 0))).1.w.done = false ∧
+    (applyC .discard c (.w (.deliver r 0))).1.w.readers = c.w.readers ∧
+    (applyC .discard c (.w (.deliver r 0))).1.w.closed = c.w.closed := by
+  have hnodup : c.w.readers.Nodup := by
+    obtain ⟨s, hR⟩ := hb
+    rw [hR.readers]; exact hR.inv.nodup
+  have hic : c.p.inClosed = false := by rw [hi.closed]; exact hnd
+  obtain ⟨e, rest, hgr⟩ : ∃ e rest, c.w.flight r = e :: rest := by
+    cases hdr : c.w.flight r with
+    | nil => simp [hdr] at hd
+    | cons e rest => exact ⟨e, rest, rfl⟩
+  let m' : W := { c.w with flight := fun x => if x = r then rest else c.w.flight x }
+  have hst : Writer.step c.w (.deliver r 0) = receive m' e.1 r e.2.1 e.2.2 := by
+    simp only [Writer.step, stepWith, hgr, List.getElem?_cons_zero, List.eraseIdx_cons_zero]; rfl
+  obtain ⟨_, _, hlen, _⟩ := receive_facts m' e.1 r e.2.1 e.2.2 hi.head
+  obtain ⟨hrd, hdr, hcl, hfl⟩ := receive_rd m' e.1 r e.2.1 e.2.2
+  obtain ⟨e1, _, _, _, e5⟩ := enqAll_open .discard c.p (receive m' e.1 r e.2.1 e.2.2).2.emits hic
+  have hdone : (receive m' e.1 r e.2.1 e.2.2).1.done = false := by rw [receive_done]; exact hnd
+  have hna : accepts (.deliver r 0) (Writer.step c.w (.deliver r 0)).2 = false := rfl
+  simp only [applyC, hna, hst, isClose, Bool.false_eq_true, if_false]
+  refine ⟨?_, hdone, hrd, hcl⟩
+  have hds : dropSum (receive m' e.1 r e.2.1 e.2.2).1 = dropSum c.w := by
+    simp only [dropSum, hrd, hdr]; rfl
+  simp only [mu, hds, flightSum, e1, e5, hrd, hfl, List.length_append, Comp.outstanding, Nat.add_zero]
+  have hs := sum_dec c.w.readers (fun x => (c.w.flight x).length) r hnodup hr hd
+  have hmap : (c.w.readers.map fun x => (m'.flight x).length) =
+      (c.w.readers.map fun x => if x = r then (c.w.flight r).length - 1 else (c.w.flight x).length) := by
+    apply List.map_congr_left
+    intro x _
+    show (if x = r then rest else c.w.flight x).length = _
+    split
+    · rw [hgr]; simp
+    · rfl
+  show 2 * (receive m' e.1 r e.2.1 e.2.2).1.rows.length + (c.p.buf.length + (receive m' e.1 r e.2.1 e.2.2).2.emits.length) +
+      dropSum c.w + (c.w.readers.map fun x => (m'.flight x).length).sum + (c.accepted - c.got.length) +
+      (if c.p.exited = true then 0 else 1) < _
+  rw [hmap]
+  have hl : (receive m' e.1 r e.2.1 e.2.2).2.emits.length + (receive m' e.1 r e.2.1 e.2.2).1.rows.length = c.w.rows.length := hlen
   omega
 
 /-- A torn-down writer accepts no write: no new response becomes owed. -/
@@ -632,30 +690,31 @@ theorem torn_no_accept (c : Comp) (ht : TornDown c) (v : Nat) :
           split <;> simp [hacc, accepts]
   simp only [applyC, this, Bool.false_eq_true, if_false, Nat.add_zero]
 
-/-- A fair step of a torn-down writer: the consumer's receive, a held-back drop notice, or the
-pump goroutine returning. -/
-def IsFair (x : CStep) : Prop := x = .recv ∨ x = .pumpExit ∨ ∃ r, x = .w (.deliverDrop r)
+/-- A fair step of a torn-down writer: the consumer's receive, a held-back drop notice, an answer
+in flight reaching the writer (the goroutine inside `Reader.Receive` going on into
+`(*Writer).receive`), or the pump goroutine returning. -/
+def IsFair (x : CStep) : Prop := x = .recv ∨ x = .pumpExit ∨ (∃ r, x = .w (.deliverDrop r)) ∨ ∃ r, x = .w (.deliver r 0)
 
 /-- From a torn-down state, at most `μ` fair steps release everything that is owed. -/
-theorem release (n : Nat) : ∀ c : Comp, mu c ≤ n → CInv c → Backed c → TornDown c → (∀ r, c.w.flight r = []) →
+theorem release (n : Nat) : ∀ c : Comp, mu c ≤ n → CInv c → Backed c → TornDown c →
     ∃ cs, (∀ x ∈ cs, IsFair x) ∧ cs.length ≤ n ∧ (runC .discard c cs).outstanding = 0 ∧ CInv (runC .discard c cs) := by
   induction n with
   | zero =>
-    intro c hmu hi hb ht _
+    intro c hmu hi hb ht
     refine ⟨[], by simp, by simp, ?_, hi⟩
     simp only [mu] at hmu
     simp only [runC]; omega
   | succ n ih =>
-    intro c hmu hi hb ht hnf
+    intro c hmu hi hb ht
     by_cases ho : c.outstanding = 0
     · exact ⟨[], by simp, by simp, ho, hi⟩
     · have hop : c.outstanding > 0 := by omega
-      rcases enabled c hi hb ht hnf hop with hbuf | hex | ⟨hnd, r, hr, hd⟩
+      rcases enabled c hi hb ht hop with hbuf | hex | ⟨hnd, r, hr, hd | hd⟩
       · obtain ⟨hlt, hw⟩ := recv_decreases c hi hop (Or.inl hbuf)
         have hi' := cinv_recv c hi
         have hb' : Backed (applyC .discard c .recv).1 := backed_applyC .discard c .recv hb
         have ht' : TornDown (applyC .discard c .recv).1 := by unfold TornDown; rw [hw]; exact ht
-        obtain ⟨cs, f, l, o, i⟩ := ih _ (by omega) hi' hb' ht' (by rw [hw]; exact hnf)
+        obtain ⟨cs, f, l, o, i⟩ := ih _ (by omega) hi' hb' ht'
         refine ⟨.recv :: cs, ?_, by simp; omega, by simpa [runC] using o, by simpa [runC] using i⟩
         intro x hx
         simp only [List.mem_cons] at hx
@@ -666,7 +725,7 @@ theorem release (n : Nat) : ∀ c : Comp, mu c ≤ n → CInv c → Backed c →
         have hi' := cinv_recv c hi
         have hb' : Backed (applyC .discard c .recv).1 := backed_applyC .discard c .recv hb
         have ht' : TornDown (applyC .discard c .recv).1 := by unfold TornDown; rw [hw]; exact ht
-        obtain ⟨cs, f, l, o, i⟩ := ih _ (by omega) hi' hb' ht' (by rw [hw]; exact hnf)
+        obtain ⟨cs, f, l, o, i⟩ := ih _ (by omega) hi' hb' ht'
         refine ⟨.recv :: cs, ?_, by simp; omega, by simpa [runC] using o, by simpa [runC] using i⟩
         intro x hx
         simp only [List.mem_cons] at hx
@@ -682,12 +741,28 @@ theorem release (n : Nat) : ∀ c : Comp, mu c ≤ n → CInv c → Backed c →
           rcases ht with h | h
           · rw [hnd] at h; cases h
           · exact Or.inr h
-        obtain ⟨cs, f, l, o, i⟩ := ih _ (by omega) hi' hb' ht' (by rw [hfl]; exact hnf)
+        obtain ⟨cs, f, l, o, i⟩ := ih _ (by omega) hi' hb' ht'
         refine ⟨.w (.deliverDrop r) :: cs, ?_, by simp; omega, by simpa [runC] using o, by simpa [runC] using i⟩
         intro x hx
         simp only [List.mem_cons] at hx
         rcases hx with rfl | hx
-        · exact Or.inr (Or.inr ⟨r, rfl⟩)
+        · exact Or.inr (Or.inr (Or.inl ⟨r, rfl⟩))
+        · exact f x hx
+      · obtain ⟨hlt, hd', hrd, hcl⟩ := deliver_decreases c hi hb r hr hnd hd
+        have hi' := cinv_w c (.deliver r 0) hi
+        have hb' : Backed (applyC .discard c (.w (.deliver r 0))).1 :=
+          backed_applyC .discard c _ hb
+        have ht' : TornDown (applyC .discard c (.w (.deliver r 0))).1 := by
+          unfold TornDown; rw [hrd, hcl]
+          rcases ht with h | h
+          · rw [hnd] at h; cases h
+          · exact Or.inr h
+        obtain ⟨cs, f, l, o, i⟩ := ih _ (by omega) hi' hb' ht'
+        refine ⟨.w (.deliver r 0) :: cs, ?_, by simp; omega, by simpa [runC] using o, by simpa [runC] using i⟩
+        intro x hx
+        simp only [List.mem_cons] at hx
+        rcases hx with rfl | hx
+        · exact Or.inr (Or.inr (Or.inr ⟨r, rfl⟩))
         · exact f x hx
 
 /-! ### `Backed` along every system history
